@@ -1,5 +1,6 @@
 import RawPanelVerif.Gen.Consts
 import RawPanelVerif.Lemmas.GfxCor
+import RawPanelVerif.Lemmas.GfxSpecLift
 /-!
 # C05 — Chunked graphics reassemble exactly; no corrupt image is ever delivered
 
@@ -27,24 +28,21 @@ the behaviour of the pinned tree is kept as `…Pinned` and refuted by the `pinn
 * `at_most_once_batch | _stream`  the transfers of the deliveries are pairwise different
 * `never_altered`                 (no domain condition) bytes at the end of the call = bytes when the message was made
 
-The safety theorems read a line through `readLine` (the decoder's own matcher, as a Spec-level chunk). That the
-Spec's independently written line grammar `Spec.Gfx.parseLine` agrees with it is compared by the driver on every
-line of every record (NE otherwise) and against the real regular expression by the `gfx.match` records:
+**The Spec's own reading of a line** (every byte string)
+* `spec_reading_agrees`           `Spec.Gfx.parseLine l = readLine l`: the Spec's independently written line grammar and
+  the decoder's own matcher (`readLine`, used by the safety theorems above) accept the same lines and read the same
+  chunk from them (both accept exactly `Lemmas/GfxAgree.lean: Shape`). The driver still compares the two on every
+  line of every record, and the matcher against the real regular expression by the `gfx.match` records.
+* `safety_spec_batch | _stream`   the safety theorems restated with `Spec.Gfx.checkSafety` / `Spec.Gfx.inDomain` on
+  the lines themselves (streaming: the lines with surrounding white space stripped), as the driver evaluates them
 
--- NOT YET PROVED
--- theorem spec_reading_agrees (l : Bytes) : Spec.Gfx.parseLine l = readLine l
-
-and therefore also the Spec-level forms of the encoder / clean-run statements, which go through `parseLine`:
-
--- NOT YET PROVED
--- theorem encoder_lines_clean (g : Img) (ids : List Nat) (hr : InRange g) :
---     Spec.Gfx.checkEnc (sentOf g) ids (encodeState g ids) = none
--- theorem clean_run_spec (g : Img) (id : Nat) (hr : InRange g) (all : List Bytes) (w : Weave (chunkLines g (dec id)) all) :
---     Spec.Gfx.cleanRuns (sentOf g) [id] all = true ∧
---     Spec.Gfx.checkClean (sentOf g) [id] all (batchDelivs Batch.step all) = none ∧ (same for stream, serialised)
-(`clean_run_*` below are their model-level forms — `…_partial` in the sense that the lines are read by `readLine` /
-`parseLine?` instead of `Spec.Gfx.parseLine`; `checkEnc`/`checkClean` are evaluated on the implementation's output for
-every `gfx.rt` record.)
+**Encoder and clean runs in the Spec's terms** (through `Spec.Gfx.parseLine`)
+* `encoder_lines_clean`           `Spec.Gfx.checkEnc (sentOf g) ids (encodeState g ids) = none` for every image whose
+  fields fit the message types and every id list (also the empty image / empty list)
+* `clean_run_spec`                the encoder's lines for one 32-bit id, woven with unrelated lines: `cleanRuns` holds
+  and `checkClean` passes for the batch call, the streaming reader and the serialised reader (delivery at the
+  position of the run's last line). The id must fit `uint32` (the type of `HWCIDs`): for larger ids the decoder
+  delivers to `id mod 2^32` and `checkClean` fails — `clean_run_spec_id_domain_counterexample`.
 -/
 namespace RawPanelVerif.C05
 open RawPanelVerif RawPanelVerif.Gfx
@@ -227,6 +225,51 @@ theorem never_altered (lines : List Bytes) :
     ∀ d ∈ batchDelivs Batch.step lines, d.final = d.img.data :=
   batch_never_altered lines
 
+/-! ## the Spec's own reading of a line -/
+
+/-- the Spec's line grammar and the decoder's matcher agree on every byte string -/
+theorem spec_reading_agrees (l : Bytes) : Spec.Gfx.parseLine l = readLine l := parseLine_eq_readLine l
+
+/-- safety of the batch call exactly as the driver evaluates it: `Spec.Gfx.checkSafety` on the lines -/
+theorem safety_spec_batch (lines : List Bytes) (hdom : Spec.Gfx.inDomain lines = true) :
+    Spec.Gfx.checkSafety lines (batchDelivs Batch.step lines) = none := by
+  have e : readings lines = lines.map Spec.Gfx.parseLine := map_readLine lines
+  have h := all_deliveries_legitimate_batch lines (by rw [e, ← inDomain_eq]; exact hdom)
+  unfold Spec.Gfx.checkSafety Spec.Gfx.safety
+  rw [← e, h]; rfl
+
+/-- … of the streaming reader, plain and serialised: the history is the lines with white space stripped -/
+theorem safety_spec_stream (lines : List Bytes) (hdom : Spec.Gfx.inDomain (lines.map Trim.trimSpace) = true) :
+    Spec.Gfx.checkSafety (lines.map Trim.trimSpace) (streamDelivs Stream.parse lines) = none ∧
+    Spec.Gfx.checkSafety (lines.map Trim.trimSpace) (serialDelivs Stream.parse lines) = none := by
+  have e : readingsTrimmed lines = (lines.map Trim.trimSpace).map Spec.Gfx.parseLine := map_readTrimmed lines
+  have hd : Spec.Gfx.inDomainOn (readingsTrimmed lines) = true := by rw [e, ← inDomain_eq]; exact hdom
+  have h1 := all_deliveries_legitimate_stream lines hd
+  have h2 := all_deliveries_legitimate_serialised lines hd
+  unfold Spec.Gfx.checkSafety Spec.Gfx.safety
+  rw [← e, h1, h2]; exact ⟨rfl, rfl⟩
+
+/-! ## encoder and clean runs in the Spec's terms -/
+
+/-- the encoder's output passes the Spec's encoder check: only chunk lines; per id, in order, one clean run of the
+image (chunks `0..n-1`, at most 170 payload bytes each, header exactly on chunk 0 declaring `n-1` and the image's
+metadata, payloads concatenating to the image); nothing for an empty image -/
+theorem encoder_lines_clean (g : Img) (ids : List Nat) (hr : InRange g) :
+    Spec.Gfx.checkEnc (sentOf g) ids (encodeState g ids) = none :=
+  checkEnc_encodeState g hr.ty ids
+
+/-- the encoder's lines for one target id (a `uint32`), with unrelated lines woven in anywhere, are a clean run for
+the Spec, and the Spec's clean-run check passes on what the batch call, the streaming reader and the serialised
+reader deliver: exactly one image, equal to what was sent, at the run's last line, unaltered at the end -/
+theorem clean_run_spec (g : Img) (id : Nat) (hid : id < 2 ^ 32) (hr : InRange g) (all : List Bytes)
+    (w : Weave (chunkLines g (dec id)) all) :
+    Spec.Gfx.cleanRuns (sentOf g) [id] all = true ∧
+    Spec.Gfx.checkClean (sentOf g) [id] all (batchDelivs Batch.step all) = none ∧
+    Spec.Gfx.cleanRuns (sentOf g) [id] (all.map Trim.trimSpace) = true ∧
+    Spec.Gfx.checkClean (sentOf g) [id] (all.map Trim.trimSpace) (streamDelivs Stream.parse all) = none ∧
+    Spec.Gfx.checkClean (sentOf g) [id] (all.map Trim.trimSpace) (serialDelivs Stream.parse all) = none :=
+  clean_run_spec_all g id hid hr all w
+
 /-! ## concrete lines used below -/
 
 namespace Pinned
@@ -274,6 +317,30 @@ example : Spec.Gfx.inDomainOn (readings [Pinned.c0of1, Pinned.c1, Pinned.c2]) = 
     (batchDelivs Batch.step [Pinned.c0of1, Pinned.c1, Pinned.c2]).length = 1 ∧
     Spec.Gfx.inDomainOn (readingsTrimmed [Pinned.c0of1, Pinned.c1, Pinned.c1]) = true ∧
     (streamDelivs Stream.parse [Pinned.c0of1, Pinned.c1, Pinned.c1]).length = 1 := by decide
+
+/-- hypotheses of `clean_run_spec` / `encoder_lines_clean` on a real input: id 5, `ping` before and after the run -/
+example : (5 : Nat) < 2 ^ 32 ∧ InRange Example.g ∧ chunkLines Example.g (dec 5) ≠ [] ∧
+    Weave (chunkLines Example.g (dec 5)) (Example.ping :: chunkLines Example.g (dec 5) ++ [Example.ping]) := by
+  refine ⟨by decide, ⟨by decide, by decide, by decide, by decide, by decide, by decide⟩, ?_, ?_⟩
+  · intro h
+    have := congrArg List.length h
+    rw [chunkLines_length] at this
+    exact absurd this (by decide)
+  · exact Weave.snoc_skip _ (Example.ping :: chunkLines Example.g (dec 5)) _ ⟨by decide, by decide⟩
+      (.skip _ _ _ ⟨by decide, by decide⟩ (Weave.refl _))
+/-- `spec_reading_agrees` on a graphics line and on a non-graphics line -/
+example : (Spec.Gfx.parseLine Pinned.c0of2).isSome = true ∧ Spec.Gfx.parseLine Example.ping = none := by decide
+/-- the domain hypothesis of the `safety_spec_*` theorems on a real history with a delivery -/
+example : Spec.Gfx.inDomain [Pinned.c0of1, Pinned.c1, Pinned.c2] = true ∧
+    Spec.Gfx.inDomain ([Pinned.c0of1, Pinned.c1, Pinned.c1].map Trim.trimSpace) = true := by decide
+
+/-- the id bound of `clean_run_spec` is needed: the target id `2^32` does not fit the `uint32` the decoder stores
+ids in, the image arrives for id `0`, and the Spec's clean-run check fails (here on the bare run, batch call) -/
+theorem clean_run_spec_id_domain_counterexample :
+    Spec.Gfx.checkClean (sentOf Example.g) [2 ^ 32] (chunkLines Example.g (dec (2 ^ 32)))
+      (batchDelivs Batch.step (chunkLines Example.g (dec (2 ^ 32)))) ≠ none :=
+  clean_run_spec_big_id Example.g (2 ^ 32) (Nat.le_refl _) (by decide)
+    ⟨by decide, by decide, by decide, by decide, by decide, by decide⟩ (by decide) _ (Weave.refl _)
 
 /-! ## defects of the pinned tree (counterexamples, replayed on the code by corpus/C05/*.rec) -/
 
